@@ -184,7 +184,9 @@ func vfhC10MapOrder() {
 // bit-identical.
 func vfhC10MapOrderShapes() {
 	var wa, wb string
-	switch vfInt("case", 0, 9) {
+	switch vfInt("case", 0, 10) {
+	case 10: // two holes that start at the same (lowest) vertex
+		wa, wb = "POLYGON((0 0,10 0,10 10,0 10,0 0),(2 5,6 7,6 6,2 5),(2 5,6 4,6 3,2 5))", "POLYGON((20 20,21 20,21 21,20 20))"
 	case 8: // overlapping members, a covered hole and a far member in one operand
 		wa, wb = "GEOMETRYCOLLECTION(POLYGON((0 0,10 0,10 10,0 10,0 0)),POLYGON((2 2,8 2,8 8,2 8,2 2),(4 4,6 4,6 6,4 6,4 4)),POLYGON((20 20,22 20,22 22,20 22,20 20)))", "POINT(30 30)"
 	case 9: // three mutually overlapping members and a line through them
